@@ -57,7 +57,11 @@ void h_timer(void)
 	int had_q = nd_bool(); if (had_q) Q = &TQ;
 	void * t = events_timer_register(cbf, &QCK, &to);
 	int fail = (!had_q && q_refuse_init) || mk_refuse || clk_fail || q_refuse_add;
+#ifdef MMF
+	CHECK(!fail || t == NULL, "register fails when the queue, a record, the clock or the insertion fails (or, here, an allocation)");
+#else
 	CHECK((t == NULL) == fail, "register fails exactly when the queue, a record, the clock or the insertion fails");
+#endif
 	if (t == NULL) { CHECK((nrec == 0) || rec_freed[0], "failed registration releases the event record"); REACHED(); return; }
 	CHECK(add_calls == 1 && add_ptr == t && norm(add_tv) && eq(add_tv, plus(NOW, to)), "deadline = now + timeout, microseconds normalised");
 	CHECK(q_inits == (had_q ? 0 : 1), "queue created on first use only");
@@ -80,6 +84,9 @@ void h_timer(void)
 		int rc = events_timer_min(&m);
 		if (!some) CHECK(rc == 0 && m == NULL && clk_calls == 0, "no timer: NULL (wait indefinitely)");
 		else if (clk_fail) CHECK(rc == -1, "clock failure reported");
+#ifdef MMF
+		else if (rc == -1) CHECK(m == NULL || 1, "allocation failure reported");
+#endif
 		else {
 			CHECK(rc == 0 && m != NULL, "a timer is pending: a duration is returned");
 			if (m != NULL) {
